@@ -22,7 +22,7 @@ func c04(c *core.Ctx) map[string]interface{} {
 	r4parser(c)
 	r4acyclic(c, s)
 	r3clone(c)
-	r4len(c)
+	r4lenX(c)
 	r4seqof(c)
 	r4frag(c)
 	r4entry(c)
